@@ -11,7 +11,8 @@ Spec: the array machines of `Lm.Spec.C12` (content = plain list, iterator = curs
 
 Histories: every finite sequence of API calls on one container handle and one iterator handle,
 subject to the iterator-invalidation rule `okRun` (while an iterator is live the container is
-modified only through it; `free` abandons an iterator).  NULL handles (calls after `free`, iterator
+modified only through it — or, for the queue, by `enq`, which never touches a node an iterator can
+point into; `free` abandons an iterator).  NULL handles (calls after `free`, iterator
 calls without / after the end of an iteration) and NULL data are part of the histories.
 -/
 namespace Lm.Props.C12
@@ -66,6 +67,21 @@ theorem C12_list_refines_multiset (eq : Val → Val → Bool) (dtor cmp : Bool) 
     (ListM.run eq (ListM.new dtor cmp) ops).log.map absEv = (Spec.C12.ListM.run eq (Spec.C12.ListM.init dtor cmp) ops).out := by
   have := ListM.run_R eq ops (ListM.init_R dtor cmp) h
   exact ⟨this.2, content_of_R this.1⟩
+
+/-- What the list machine's `ins` and `rm`/`find` mean, said directly: an insertion adds exactly one
+element and leaves the others in their order (erasing it again gives the old list back); a removal
+leaves the others in their order; the element hit by `find`/`rm` is the *first* one that the
+comparator calls equal or that is the same pointer. -/
+theorem C12_list_ops_stable (eq : Val → Val → Bool) (cmp : Bool) (xs : List Val) (i : Nat) (v : Val) :
+    (xs.insertIdx i v).eraseIdx i = xs ∧
+    (i ≤ xs.length → (xs.insertIdx i v).Perm (v :: xs)) ∧
+    (xs.eraseIdx i).Sublist xs ∧
+    (∀ (h : xs.findIdx (Spec.C12.ListM.hits eq cmp v) < xs.length),
+        Spec.C12.ListM.hits eq cmp v xs[xs.findIdx (Spec.C12.ListM.hits eq cmp v)] = true) ∧
+    (∀ j (h : j < xs.findIdx (Spec.C12.ListM.hits eq cmp v)),
+        Spec.C12.ListM.hits eq cmp v (xs[j]'(Nat.lt_of_lt_of_le h List.findIdx_le_length)) = false) :=
+  ⟨List.eraseIdx_insertIdx_self v, fun h => List.perm_insertIdx v xs h, List.eraseIdx_sublist xs i,
+   fun _ => List.findIdx_getElem, fun _ h => List.not_of_lt_findIdx h⟩
 
 /-- First in, first out, said directly: in a history of `enq`/`deq`/`peek`/`len` calls the pointers
 handed back by `deq`, in the order of the calls, followed by the content of the queue, are exactly
